@@ -7,6 +7,7 @@ import (
 	"os"
 	"path/filepath"
 	"testing"
+	"time"
 
 	"verifharness/ev"
 	"verifharness/gen"
@@ -56,7 +57,7 @@ func runGiant(g Giant, x *ev.Ctx) error {
 		st = "disk"
 	}
 	raw, _ := json.Marshal(map[string]any{"mode": "crl_only", "crl_config": map[string]any{"work_dir": wd, "storage_type": st, "crl_files": []string{crlFile}, "trusted_signature_certs_files": []string{caFile}}})
-	v, err := world.LoadValidatorJSON(raw)
+	v, err := world.LoadValidatorJSONWithin(raw, 20*time.Minute)
 	if err != nil {
 		return fmt.Errorf("provisioning with a %d-entry list failed: %v", g.N, err)
 	}
